@@ -191,8 +191,11 @@ impl<'a, R: BufRead> LogCat2DltMsgIterator<'a, R> {
 fn parse_time_str(timestamp: &str) -> u64 {
     let dot_idx = timestamp.find('.').unwrap_or(timestamp.len());
 
-    let timestamp_secs_us: u64 =
-        timestamp[0..dot_idx].parse::<u64>().unwrap_or_default() * US_PER_SEC;
+    // the number of digits is not limited by the regex, so avoid overflows:
+    let timestamp_secs_us: u64 = timestamp[0..dot_idx]
+        .parse::<u64>()
+        .unwrap_or_default()
+        .saturating_mul(US_PER_SEC);
 
     let timestamp_fraction_us = if dot_idx < timestamp.len() {
         let timestamp_fraction_str = &timestamp[dot_idx + 1..];
@@ -215,7 +218,7 @@ fn parse_time_str(timestamp: &str) -> u64 {
     } else {
         0
     };
-    timestamp_secs_us + timestamp_fraction_us
+    timestamp_secs_us.saturating_add(timestamp_fraction_us)
 }
 
 /// parse a mmdd string into a NaiveDate:
@@ -327,7 +330,7 @@ where
                             self.get_apid_info_msg(
                                 &apid,
                                 tag,
-                                self.recorded_start_time_us + timestamp_us,
+                                self.recorded_start_time_us.saturating_add(timestamp_us),
                                 timestamp_us,
                             )
                         } else {
@@ -341,7 +344,9 @@ where
                         let mtin: u8 = log_level as u8;
                         let log_msg = DltMessage {
                             index,
-                            reception_time_us: self.recorded_start_time_us + timestamp_us, // should be from last... (but we'd need to scan all)
+                            reception_time_us: self
+                                .recorded_start_time_us
+                                .saturating_add(timestamp_us), // should be from last... (but we'd need to scan all)
                             ecu: self.ecu.to_owned(),
                             timestamp_dms: self.timestamp_dms_from(timestamp_us),
                             standard_header: DltStandardHeader {
